@@ -72,8 +72,34 @@ fn pool_progs() -> Vec<(&'static str, Prog)> {
     v.push(("const 4", p));
     // f6: forty choices
     v.push(("chain(40)", prog::family_chain(40, &[B::Min, B::Max, B::And, B::Or], 3)));
+    // f7: HUGE - about 1400 values live at once (more than 1024 spill slots
+    // even with 255 registers) and one choice: c[0] = x, c[i+1] = 0.999 c[i] + k_i,
+    // result min(sum_i c[i] * c[i + half], 1e30)
+    let half = 1400;
+    let mut p = Prog::default();
+    let mut cur = p.push(POp::Var(0));
+    let mut c = vec![];
+    for i in 0..2 * half {
+        c.push(cur);
+        let k = p.push(POp::Const(0.999));
+        let m = p.push(POp::Bin(B::Mul, cur, k));
+        let k2 = p.push(POp::Const(0.001 * (i as f32 + 1.0)));
+        cur = p.push(POp::Bin(B::Add, m, k2));
+    }
+    let mut sum = p.push(POp::Bin(B::Mul, c[0], c[half]));
+    for i in 1..half {
+        let q = p.push(POp::Bin(B::Mul, c[i], c[i + half]));
+        sum = p.push(POp::Bin(B::Add, sum, q));
+    }
+    let big = p.push(POp::Const(1e30));
+    let r = p.push(POp::Bin(B::Min, sum, big));
+    p.roots = vec![r];
+    v.push(("huge: 1400 live values, one choice", p));
     v
 }
+
+/// Index of the huge function, which only takes part with three uses
+const HUGE: u8 = 7;
 
 #[derive(Copy, Clone, Debug, PartialEq, Eq, Hash)]
 enum Use {
@@ -280,6 +306,12 @@ fn alphabet(nf: usize, fs: &[u8]) -> Vec<Use> {
         if f as usize >= nf {
             continue;
         }
+        if f == HUGE {
+            v.push(Use::Point { f, input: 0 });
+            v.push(Use::Float { f, input: 0 });
+            v.push(Use::Simplify { f, input: 0 });
+            continue;
+        }
         for input in 0..2u8 {
             v.push(Use::Point { f, input });
             v.push(Use::Interval { f, input });
@@ -465,7 +497,7 @@ enum Unit {
 }
 
 fn full_alpha_len() -> usize {
-    7 * 2 * 5
+    7 * 2 * 5 + 3
 }
 
 fn units(_tier: Tier) -> Vec<Unit> {
@@ -481,7 +513,7 @@ fn units(_tier: Tier) -> Vec<Unit> {
 
 fn seq_unit<F: Backend>(cx: &mut Cx, tier: Tier, first: usize) {
     let funs = build_pool::<F>();
-    let all: Vec<u8> = (0..7).collect();
+    let all: Vec<u8> = (0..8).collect();
     let full = alphabet(funs.len(), &all);
     let firstu = full[first];
     let mut sub = 0u64;
@@ -517,10 +549,10 @@ impl Check for C10 {
     }
     fn meta(&self, tier: Tier) -> Meta {
         Meta {
-            rule: "case = sequence of uses executed on shared long-lived objects; function pool of 7 differently shaped functions {no choice / 2 vars; 3 vars / 2 choices; 14 live values (spills); 3 outputs incl. a constant; a free variable; zero variables; 40 choices}; a use = (point | interval | float-slice | grad-slice evaluation, function, one of 2 inputs with different sample counts) or (simplify function with the trace of one of 2 boxes, evaluate and recycle the child); 70 uses; EVERY sequence up to the depth bound goes through ONE evaluator per kind, ONE stack of recycled tape storage (JIT: executable mappings larger / smaller than the next code), ONE stack of recycled function storage and ONE workspace; each step's outputs, trace and (for simplify) the child's tape must equal bit-for-bit the same call on fresh objects; RenderHandle: every sequence of simplify calls over 3 traces (cached-next hit and miss, recycle) up to the depth bound; backends VM<255>, VM<3>, JIT; no state de-duplication (storage is opaque)".into(),
+            rule: "case = sequence of uses executed on shared long-lived objects; function pool of 8 differently shaped functions {no choice / 2 vars; 3 vars / 2 choices; 14 live values (spills); 3 outputs incl. a constant; a free variable; zero variables; 40 choices; a HUGE one with ~1400 simultaneously live values (> 1024 spill slots at every register budget, 8400 nodes) and one choice, taking part with 3 uses}; a use = (point | interval | float-slice | grad-slice evaluation, function, one of 2 inputs with different sample counts) or (simplify function with the trace of one of 2 boxes, evaluate and recycle the child); 73 uses; EVERY sequence up to the depth bound goes through ONE evaluator per kind, ONE stack of recycled tape storage (JIT: executable mappings larger / smaller than the next code), ONE stack of recycled function storage and ONE workspace; each step's outputs, trace and (for simplify) the child's tape must equal bit-for-bit the same call on fresh objects; RenderHandle: every sequence of simplify calls over 3 traces (cached-next hit and miss, recycle) up to the depth bound; backends VM<255>, VM<3>, JIT; no state de-duplication (storage is opaque)".into(),
             bounds: match tier {
-                Tier::Quick => "depth 2 over all 70 uses; depth 3 over the 40 uses of the 4 most differently shaped functions; RenderHandle depth 3".into(),
-                Tier::Thorough => "depth 3 over all 70 uses; depth 4 over the 40-use sub-alphabet; RenderHandle depth 4".into(),
+                Tier::Quick => "depth 2 over all 73 uses; depth 3 over the 40 uses of the 4 most differently shaped functions; RenderHandle depth 3".into(),
+                Tier::Thorough => "depth 3 over all 73 uses; depth 4 over the 40-use sub-alphabet; RenderHandle depth 4".into(),
             },
             assumptions: vec!["observations are bit patterns of outputs, traces and, for simplify, size/choice count/tape hash of the child".into()],
             crash_policy: CrashPolicy::Violation,
